@@ -1,58 +1,57 @@
 #!/usr/bin/env python3
 """Re-run every kept seeded change against the *current* checks.
 
-For each /verif/seeded/<name>/: apply patch.diff to /repo, run the quick check of the property it targets (plus any
-extra properties listed in meta.json["also"]), revert /repo, and record in meta.json["regression"] the exit code and the
-violation signatures that are NOT matched by known_findings.json.  Prints one line per seed; exits 1 if a seed that was
-recorded as detected is no longer detected.  /repo must be clean before and is clean afterwards.
+For each /verif/seeded/<name>/: apply patch.diff to a scratch copy of the library (never to /repo), run the quick check
+of the property it targets (plus any extra properties listed in meta.json["also"]) against the copy, and record in
+meta.json["regression"] the exit code and the violation signatures that are NOT matched by known_findings.json.
+Prints one line per seed; exits 1 if a seed is not detected.
+
+usage: tools/seed_regress.py [name-or-property ...] [--jobs N]   (N seeds evaluated concurrently; each check already
+uses up to 16 processes, so N > 2 only makes sense on an otherwise idle machine)
 """
+import concurrent.futures
 import json
 import os
-import subprocess
 import sys
 
-ROOT = os.path.dirname(os.path.dirname(os.path.abspath(__file__)))
+sys.path.insert(0, os.path.dirname(os.path.abspath(__file__)))
+import seedlib  # noqa: E402
+
+ROOT = seedlib.ROOT
 
 
-def sh(*a, **k):
-    return subprocess.run(a, capture_output=True, text=True, **k)
+def one(name):
+    d = os.path.join(ROOT, "seeded", name)
+    meta = json.load(open(os.path.join(d, "meta.json")))
+    props = [meta["property"]] + list(meta.get("also", []))
+    try:
+        with seedlib.scratch_repo(os.path.join(d, "patch.diff")) as changed:
+            res = {p: seedlib.run_check(p, changed) for p in props}
+    except RuntimeError as e:
+        meta["regression"] = {"status": str(e)}
+        json.dump(meta, open(os.path.join(d, "meta.json"), "w"), indent=1)
+        return name, None, str(e)
+    det = any(v["exit"] == 1 and v["signatures"] for v in res.values())
+    meta["regression"] = {"detected": det, "checks": res}
+    json.dump(meta, open(os.path.join(d, "meta.json"), "w"), indent=1)
+    return name, det, {p: (v["exit"], len(v["signatures"])) for p, v in res.items()}
 
 
 def main():
-    only = sys.argv[1:]
-    if sh("git", "-C", "/repo", "status", "--porcelain").stdout.strip():
-        print("/repo is not clean")
-        return 2
+    argv = sys.argv[1:]
+    jobs = 1
+    if "--jobs" in argv:
+        i = argv.index("--jobs")
+        jobs = int(argv[i + 1])
+        del argv[i:i + 2]
+    names = [n for n in sorted(os.listdir(os.path.join(ROOT, "seeded")))
+             if not argv or n in argv or n.split("-")[0] in argv]
     bad = 0
-    for name in sorted(os.listdir(os.path.join(ROOT, "seeded"))):
-        d = os.path.join(ROOT, "seeded", name)
-        if only and name not in only and name.split("-")[0] not in only:
-            continue
-        meta = json.load(open(os.path.join(d, "meta.json")))
-        props = [meta["property"]] + list(meta.get("also", []))
-        r = sh("git", "-C", "/repo", "apply", os.path.join(d, "patch.diff"))
-        if r.returncode:
-            print(name, "PATCH-DOES-NOT-APPLY", r.stderr.strip()[:200])
-            meta["regression"] = {"status": "patch does not apply to the current tree"}
-            json.dump(meta, open(os.path.join(d, "meta.json"), "w"), indent=1)
-            bad += 1
-            continue
-        try:
-            res = {}
-            env = dict(os.environ, VERIF_EVIDENCE_DIR="/tmp/seedreg_ev", VERIF_REPLAY_DIR="/tmp/seedreg_rp")
-            for p in props:
-                c = sh(os.path.join(ROOT, "check"), p, "--tier", "quick", env=env)
-                sigs = [l.strip() for l in c.stdout.splitlines() if l.strip().startswith("locus=")]
-                res[p] = {"exit": c.returncode, "signatures": sigs[:6]}
-        finally:
-            sh("git", "-C", "/repo", "checkout", "--", ".")
-            sh("rm", "-rf", "/tmp/seedreg_ev", "/tmp/seedreg_rp")
-        det = any(v["exit"] == 1 and v["signatures"] for v in res.values())
-        meta["regression"] = {"detected": det, "checks": res}
-        json.dump(meta, open(os.path.join(d, "meta.json"), "w"), indent=1)
-        print(name, "DETECTED" if det else "MISSED", {p: (v["exit"], len(v["signatures"])) for p, v in res.items()}, flush=True)
-        if not det:
-            bad += 1
+    with concurrent.futures.ThreadPoolExecutor(max_workers=jobs) as ex:
+        for name, det, info in ex.map(one, names):
+            print(name, "DETECTED" if det else ("MISSED" if det is not None else "PATCH-DOES-NOT-APPLY"), info, flush=True)
+            if not det:
+                bad += 1
     return 1 if bad else 0
 
 
